@@ -49,6 +49,7 @@ def scenarios(ctx):
     # as a fresh conversion of the same recording (same group => compared by `post`)
     for base in [x for x in scs if x["w"] == 1200][:3 if ctx.quick else 8]:
         scs.append(dict(base, w=2400, reuse_first_w=3612))
+        scs.append(dict(base, w=1200, reuse_first_w=2400, reuse_first_ns=(base["ns"] * 5 // 8) | 1))
     return scs + variants(ctx, scs, lens)
 
 
